@@ -43,6 +43,11 @@ EDITS = {
         ("st19", ST + "tree_diff.rs", "child_patches_map.push(((old_idx, new_idx), patches, score));", "child_patches_map.push(((new_idx, old_idx), patches, score));", "verus", "state_tree"),
     ],
     "C05": [
+        ("tl01", "crates/lib/mimium-lang/src/compiler/mirgen.rs", "                    (r, t_ret, [states, s].concat())", "                    (r, t_ret, s)", "verus", "mirgen_state"),
+        ("tl02", "crates/lib/mimium-lang/src/compiler/mirgen.rs", "                (result, ty, [states, states2].concat())", "                (result, ty, states)", "verus", "mirgen_state"),
+        ("tl03", "crates/lib/mimium-lang/src/compiler/mirgen.rs", "                self.eval_assign(*assignee, src, ty);\n                (Arc::new(Value::None), unit!(), states)", "                self.eval_assign(*assignee, src, ty);\n                (Arc::new(Value::None), unit!(), vec![])", "verus", "mirgen_state"),
+        ("tl04", "crates/lib/mimium-lang/src/compiler/mirgen.rs", "                (res, t, s)\n            })\n            .collect::<Vec<_>>();", "                (res, t, vec![])\n            })\n            .collect::<Vec<_>>();", "verus", "mirgen_state"),
+        ("tl05", "crates/lib/mimium-lang/src/compiler/mirgen.rs", "            Some(e) => self.eval_expr(e),\n            None => (Arc::new(Value::None), unit!(), vec![]),\n        };\n        //if returning non-closure function, make closure", "            Some(e) => { let (v, t, _s) = self.eval_expr(e); (v, t, vec![]) }\n            None => (Arc::new(Value::None), unit!(), vec![]),\n        };\n        //if returning non-closure function, make closure", "verus", "mirgen_state"),
         ("bs01", "crates/lib/mimium-lang/src/compiler/bytecodegen.rs", "                Some(VmInstruction::PushStatePos(state_size))", "                Some(VmInstruction::PopStatePos(state_size))", "verus", "backend_state"),
         ("bs02", "crates/lib/mimium-lang/src/compiler/bytecodegen.rs", "                let delay_idx = u8::try_from(funcproto.delay_sizes.len())\n                    .expect(\"too many delays in one function\");\n                funcproto.delay_sizes.push(max);", "                funcproto.delay_sizes.push(max);\n                let delay_idx = u8::try_from(funcproto.delay_sizes.len())\n                    .expect(\"too many delays in one function\");", "verus", "backend_state"),
         ("bs03", "crates/lib/mimium-lang/src/compiler/bytecodegen.rs", "                        bytecodes_dst.push(VmInstruction::SetState(new, size));\n                        Some(VmInstruction::Return(new, size))", "                        bytecodes_dst.push(VmInstruction::SetState(new, 1));\n                        Some(VmInstruction::Return(new, size))", "verus", "backend_state"),
